@@ -20,11 +20,12 @@ EXPLANATION = (
     "constructor parameters (R1,R2); a slot fed by a value whose declared type admits a bare str is quoted/repr-ed "
     "(R3); every checks slot goes through _format_checks (R4); check statistics keying and the value/options "
     "envelope agree between writer and reader (R5). (R6) the statistics that reach the rebuilt Check went through the dtype-aware converter (role-based: the converted container is what is passed on); (R7) serialisers never write a MultiIndex property that aggregates over its levels (coerce, names) as an option of the parent; (R8) an engine dtype that computes `type` from its fields in __post_init__ and overrides __str__ prints self.type or every such field, so the alias written to YAML/JSON/script determines the dtype; (R9) to_script decides the Timestamp/Timedelta imports on text containing every rendered piece (columns, index, dataframe checks). " 
+    " (R10) definite assignment: no function of the io / statistics modules reads a local that a branch-only path from its entry leaves unassigned (CFG may-analysis, optimistic about try bodies and loop bodies, correlated guards pruned) - an UnboundLocalError there would abort the round trip. " 
     "NOT decided: textual idempotence of YAML, verdict equality on "
     "probe frames, dtype string aliases resolving at run time."
 )
 LEVEL_RULE = "one obligation per (attribute, hop) / template slot / dictionary key found in the current tree"
-FLOORS = {"R1": 90, "R2": 14, "R3": 20, "R4": 3, "R5": 5, "R6": 3, "R7": 3, "R8": 1, "R9": 2}
+FLOORS = {"R1": 90, "R2": 14, "R3": 20, "R4": 3, "R5": 5, "R6": 3, "R7": 3, "R8": 1, "R9": 1, "R10": 1}
 
 IO = "pandera/io/pandas_io.py"
 STATS = "pandera/schema_statistics/pandas.py"
@@ -435,6 +436,8 @@ def r9_script_imports(ctx):
 
 
 def run(ctx):
+    from ..defassign import check_modules
+    check_modules(ctx, "R10", ('pandera/io/pandas_io.py', 'pandera/schema_statistics/pandas.py'), "escapes serialisation: the round trip is not even attempted")
     r7_aggregate_properties(ctx)
     r8_dtype_alias_lossless(ctx)
     r9_script_imports(ctx)
